@@ -820,7 +820,7 @@ theorem eff_orderReceipts (c : Nat) (hc : c ≤ maxChainId) : ∀ (os : List Lim
         apply t2
         rw [liqAmt_congr (accountAdd_ok h2).2.1, hl1, hx]
 
-theorem eff_payReceipts (c : Nat) (hc : c ≤ maxChainId) : ∀ (os : List (Bytes × LimitOrder)) (res : List (Bytes × Nat)) (s : State)
+theorem eff_payReceipts (c : Nat) (hc : c ≤ maxChainId) : ∀ (os : List (OrderKey × LimitOrder)) (res : List (OrderKey × Nat)) (s : State)
     (acc : List Nat) (r : State × List Nat), payReceipts c os res s acc = .ok r → Eff c s r.1 0 := by
   intro os
   induction os with
@@ -836,7 +836,7 @@ theorem eff_payReceipts (c : Nat) (hc : c ≤ maxChainId) : ∀ (os : List (Byte
       exact (((eff_poolSub_liq hc h1).trans (eff_accountAdd h2)).trans (ih _ _ _ _ h)).cast rfl
     · exact ih _ _ _ _ h
 
-theorem ammLoop_bounds : ∀ (l : List (Bytes × LimitOrder)) (i x y : Nat) (res : List (Bytes × Nat)) (r : Nat × Nat × List (Bytes × Nat)),
+theorem ammLoop_bounds : ∀ (l : List (OrderKey × LimitOrder)) (i x y : Nat) (res : List (OrderKey × Nat)) (r : Nat × Nat × List (OrderKey × Nat)),
     ammLoop l i x y res = .ok r → (x < U64 → r.1 < U64) ∧ r.2.1 ≤ y := by
   intro l
   induction l with
